@@ -20,6 +20,8 @@ from .. import scen as scen_mod
 from aquacrop import Soil
 
 NAME = "soil_profile"
+QUICK_N = 120      # each call is a full model initialisation
+THOROUGH_N = 3000
 TIMEOUT_S = 2.5
 
 
